@@ -26,8 +26,9 @@ def run_one(pid: str, root: str, tier: str, seed: int, write_evidence: bool = Tr
     mod = importlib.import_module(f"sa.props.{pid}")
     model = Model(root, overlay=overlay)
     res = mod.run(model, tier)
-    if tier == "thorough" and hasattr(mod, "selfcheck") and overlay is None:
-        res.selfcheck = mod.selfcheck(model, root, seed)
+    if tier == "thorough" and overlay is None:
+        from .selfcheck import selfcheck
+        res.selfcheck = selfcheck(pid, model, root, seed, res)
     return finish(res, tier, seed, time.time() - t0, write_evidence=write_evidence, quiet=quiet), res
 
 
